@@ -2,18 +2,24 @@
 
 case = (op, how, on, left, right)
   op    0: left.join(right, on, how)          1: left.crossJoin(right)  (how/on ignored)
+        2: left.join(left, on, how)           3: left.crossJoin(left)   (self-joins on the SAME DataFrame object;
+                                                                          the case carries right == left)
   how   the string handed to DataFrame.join ('inner', 'left_outer', 'LeftSemi', ..., also invalid ones)
   on    None | 'name' | ['name', ...]
   left/right = (fields, partitions): fields = [(name, dtype_code, nullable), ...] is the bound schema,
           partitions = [[(cell, ...), ...], ...] the rows of each partition, cell = None | int | str.
 The implementation side builds both DataFrames with exactly that partition layout
 (createDataFrame(rdd, StructType)), joins, and observes schema fields, df.columns, df.schema.names and the
-collected rows (each as (row.__fields__, values)) as a sorted multiset."""
+collected rows (each as (row.__fields__, values)) as a sorted multiset.  The joined DataFrame is then
+evaluated again, several times and in several ways ON THE SAME OBJECT (count, collect again, df.rdd.collect(),
+a derived filter, toLocalIterator, a derived select/limit): a DataFrame is lazy, every action re-runs the plan,
+and every evaluation has to denote the same multiset of rows."""
 import itertools
 from collections import Counter
 
 from common.coqlit import Err
 from pysparkling import Context
+from pysparkling.sql.functions import lit
 from pysparkling.sql.session import SparkSession
 from pysparkling.sql.types import IntegerType, LongType, StringType, StructField, StructType
 
@@ -23,13 +29,15 @@ KERNELS = ['Gen/Joins.v: how/how_name/join_types (join-type constants, JOIN_TYPE
            'Gen/Joins.v: row_pads_left, row_pads_right, row_right_parts (merge_rows_joined_on_values)',
            'Gen/Joins.v: key_is_tuple, rdd_method (join_on_values)']
 SHARD = 200
-RULE = ('pairs of tables with <= 4 rows per side, 1-2 key columns (occasionally 0) placed anywhere among 0-2 further '
+RULE = ('every joined DataFrame is evaluated 7 times on the same object (collect, count, collect, rdd.collect, '
+        'filter, toLocalIterator, select/limit); pairs of tables with <= 5 rows per side, 1-2 key columns (occasionally 0) placed anywhere among 0-2 further '
         'columns (names may be shared between the sides), key values from a domain of 2-3 values so that duplicate '
         'and missing keys occur on both sides, x every spelling of the 7 join types accepted by JOIN_TYPES (plus '
         'case/underscore variants and invalid names) x explicit partition layouts of each side over 1..3 partitions '
         '(including empty partitions); exhaustive scopes: all pairs of tables with <= 2 rows per side over 2 key '
         'values x 7 join types (1 key column; 2 key columns over 2x2 key values) x partition counts 1..3 of each '
-        'side (all layouts in the thorough tier; there also <= 3 rows per side); a malformed stream: null keys, `on` names missing on one side, '
+        'side (all layouts in the thorough tier; there also <= 3 rows per side); a positions stream (key columns at different positions in the two schemas, `on` in every order, self-joins '
+        'of the same DataFrame object, crossJoin over 1..3 left partitions); a malformed stream: null keys, `on` names missing on one side, '
         'duplicate column names within a side; non-trivial = both sides non-empty and the join succeeded; '
         'distinct by canonical JSON of the case')
 ASSUMPTIONS = [
@@ -37,6 +45,8 @@ ASSUMPTIONS = [
     'rows carry their bound schema\'s names as __fields__ (true of every DataFrame built by createDataFrame)',
     'the iteration order of the set union in RDD.cogroup is unspecified: rows are compared as sorted multisets',
     'output partitioning of the joined RDD is not modelled (collect() concatenates the partitions)',
+    're-evaluation: the derived select(*columns) is only used when the output names are distinct (select by name is '
+    'ambiguous otherwise; limit(10**6) is used instead); in the model re-evaluation is the identity by definition',
 ]
 TRUSTED = ['translator/kernels/c13.py (join-type constants and the how -> field-group/padding/RDD-join tables)',
            'the sort used to canonicalise row multisets exists twice (py/c13.py sort_key, Run/C13_run.v row_cmp)']
@@ -88,29 +98,59 @@ def _tcode(dt):
     return 99
 
 
+REEVAL = ['collect#2', 'rdd.collect', 'filter(true).collect', 'toLocalIterator', 'select/limit.collect']
+
+
+def _rows(it):
+    return sorted(((tuple(r.__fields__), tuple(r)) for r in it), key=sort_key)
+
+
+def _again(f):
+    try:
+        return f()
+    except Exception as e:  # pylint: disable=broad-except
+        return Err(type(e).__name__)
+
+
 def impl(case):
     op, how, on, left, right = case
     try:
         sc = Context()
         spark = SparkSession(sc)
-        ldf, rdf = _df(spark, sc, left), _df(spark, sc, right)
+        ldf = _df(spark, sc, left)
+        rdf = ldf if op in (2, 3) else _df(spark, sc, right)
         if ldf.rdd.getNumPartitions() != max(1, len(left[1])) or rdf.rdd.getNumPartitions() != max(1, len(right[1])):
             return Err('HarnessLayout')
-        if op == 0:
+        if op in (0, 2):
             j = ldf.join(rdf, on=list(on) if isinstance(on, list) else on, how=how)
         else:
             j = ldf.crossJoin(rdf)
         fields = [(f.name, _tcode(f.dataType), bool(f.nullable)) for f in j.schema.fields]
         columns = list(j.columns)
         names = list(j.schema.names)
-        rows = [(tuple(r.__fields__), tuple(r)) for r in j.collect()]
+        rows = _rows(j.collect())
     except Exception as e:  # pylint: disable=broad-except
         return Err(type(e).__name__)
     for _, vals in rows:
         for v in vals:
             if not (v is None or (isinstance(v, int) and not isinstance(v, bool)) or isinstance(v, str)):
                 return Err('HarnessCell')
-    return (fields, columns, names, sorted(rows, key=sort_key))
+    # the same object again: every further evaluation has to give the same multiset of rows
+    count = _again(j.count)
+    distinct = len(set(columns)) == len(columns)
+    later = [
+        _again(lambda: _rows(j.collect())),
+        _again(lambda: _rows(j.rdd.collect())),
+        _again(lambda: _rows(j.filter(lit(True)).collect())),
+        _again(lambda: _rows(j.toLocalIterator())),
+        # select by name is only meaningful when the output names are distinct
+        _again(lambda: _rows((j.select(*columns) if distinct else j.limit(10 ** 6)).collect())),
+    ]
+    if list(j.columns) != columns:
+        return Err('HarnessColumnsChanged')
+    # True = same multiset as the first collect(); otherwise what was observed instead
+    later = [True if x == rows else x for x in later]
+    return (fields, columns, names, rows, count, later)
 
 
 # ------------------------------------------------------------------------------------------------
@@ -129,7 +169,9 @@ def in_scope(case):
         return False
     if any(len(r) != len(ln) for r in _flat(left)) or any(len(r) != len(rn) for r in _flat(right)):
         return False
-    if op == 1:
+    if op in (2, 3) and (left[0] != right[0] or _flat(left) != _flat(right)):
+        return False
+    if op in (1, 3):
         return True
     h = canon_how(how)
     if h is None or h == 'cross':
@@ -151,7 +193,7 @@ def reference(case):
     op, how, on, left, right = case
     ln, rn = [f[0] for f in left[0]], [f[0] for f in right[0]]
     L, R = _flat(left), _flat(right)
-    if op == 1:
+    if op in (1, 3):
         return ln + rn, Counter(tuple(a) + tuple(b) for a in L for b in R)
     h = canon_how(how)
     keys = [on] if isinstance(on, str) else list(on)
@@ -210,11 +252,13 @@ def oracle(case, result):
     if not in_scope(case):
         return None
     op, how = case[0], case[1]
-    h = 'cross' if op == 1 else canon_how(how)
-    site = 'DataFrame.crossJoin' if op == 1 else f'DataFrame.join[{h}]'
+    h = 'cross' if op in (1, 3) else canon_how(how)
+    site = 'DataFrame.crossJoin' if op in (1, 3) else f'DataFrame.join[{h}]'
+    if op in (2, 3):
+        site += ':self'
     if isinstance(result, Err):
         return (f'{site}:raises', f'join raised {result.name}')
-    fields, columns, names, rows = result
+    fields, columns, names, rows, count, later = result
     cols, want = reference(case)
     if columns != cols:
         return (f'{site}:columns', f'df.columns = {columns}, expected {cols}')
@@ -228,6 +272,16 @@ def oracle(case, result):
         missing = list((want - got).elements())[:3]
         extra = list((got - want).elements())[:3]
         return (f'{site}:rows', f'rows differ from the nested-loop reference: missing {missing}, unexpected {extra}')
+    # the first collect() agrees with the reference; so must every later evaluation of the same DataFrame
+    total = sum(want.values())
+    if count != total:
+        return (f'{site}:re-evaluation:count', f'count() after collect() = {count!r}, the reference has {total} rows')
+    for label, x in zip(REEVAL, later):
+        if x is not True:
+            shown = x if isinstance(x, Err) else [v for _, v in x][:4]
+            return (f'{site}:re-evaluation:{label}',
+                    f'{label} after the first collect() gave {shown!r} ({len(x) if isinstance(x, list) else "-"} rows), '
+                    f'the first collect() and the reference have {total} rows')
     return None
 
 
@@ -239,9 +293,11 @@ def kind(case):
     op, how, on, left, right = case
     if op == 1:
         return 'crossJoin'
+    if op == 3:
+        return 'crossJoin/self'
     h = canon_how(how) or 'invalid'
     nk = 'none' if on is None else 1 if isinstance(on, str) else len(on)
-    return f'{h}/k{nk}'
+    return f'{h}/k{nk}' + ('/self' if op == 2 else '')
 
 
 # ------------------------------------------------------------------------------------------------
@@ -415,7 +471,35 @@ def gen_random_case(rng, malformed=False):
                 how = 'cross'
             else:
                 on = None
+    if not malformed and rng.random() < 0.12:
+        # self-join: the same DataFrame object on both sides
+        t = (lf, random_layout(rng, lrows))
+        return (2, how, on, t, t)
     return (0, how, on, (lf, random_layout(rng, lrows)), (rf, random_layout(rng, rrows)))
+
+
+def gen_positions(rng, tier):
+    """Key columns at different positions in the two schemas, `on` listed in every order (also against the
+    schema order), every join type, plus the self-joins of both tables."""
+    lf = [('k1', 0, True), ('k2', 0, True), ('a', 1, True)]
+    rf = [('b', 1, True), ('k2', 0, True), ('k1', 0, True)]
+    L = [(1, 10, 'a1'), (1, 10, 'a2'), (1, 11, 'a3'), (2, 10, 'a4'), (10, 1, 'a5')]
+    R = [('b1', 10, 1), ('b2', 10, 1), ('b3', 10, 3), ('b4', 2, 10), ('b5', 1, 10)]
+    cases = []
+    for on in (['k1'], ['k2'], ['k1', 'k2'], ['k2', 'k1'], 'k2'):
+        for h in SIX:
+            cases.append((0, h, on, (lf, random_layout(rng, L)), (rf, random_layout(rng, R))))
+            cases.append((0, h, on, (rf, random_layout(rng, R)), (lf, random_layout(rng, L))))
+            if tier == 'thorough' or rng.random() < 0.5:
+                for f, rows in ((lf, L), (rf, R)):
+                    t = (f, random_layout(rng, rows))
+                    cases.append((2, h, on, t, t))
+    for f, rows in ((lf, L), (rf, R)):
+        t = (f, random_layout(rng, rows))
+        cases.append((3, 'cross', None, t, t))
+        for n in (1, 2, 3):
+            cases.append((1, 'cross', None, (lf, even_layout(L, n)), (rf, random_layout(rng, R))))
+    return cases
 
 
 DOCTEST = (0, 'left_outer', 'id',
@@ -441,6 +525,7 @@ def generate(rng, tier):
     for h in SIX:
         cases.append((0, h) + DOCTEST[2:])
     cases.append((1, 'cross', None) + DOCTEST[3:])
+    cases += gen_positions(rng, tier)
     cases += gen_exhaustive(rng, tier)
     n = 1500 if tier == 'quick' else 30000
     for _ in range(n):
@@ -453,6 +538,18 @@ def generate(rng, tier):
 def shrink_candidates(case):
     op, how, on, (lf, lp), (rf, rp) = case
     L, R = [r for p in lp for r in p], [r for p in rp for r in p]
+    if op in (2, 3):
+        if len(lp) > 1:
+            yield (op, how, on, (lf, [L]), (lf, [L]))
+        for i in range(len(L)):
+            t = (lf, [L[:i] + L[i + 1:]])
+            yield (op, how, on, t, t)
+        keys = [] if on is None else [on] if isinstance(on, str) else on
+        for i, f in enumerate(lf):
+            if f[0] not in keys:
+                t = (lf[:i] + lf[i + 1:], [[r[:i] + r[i + 1:] for r in L]])
+                yield (op, how, on, t, t)
+        return
     if len(lp) > 1 or len(rp) > 1:
         yield (op, how, on, (lf, [L]), (rf, [R]))
     for i in range(len(L)):
